@@ -147,7 +147,7 @@ def check(ctx):
             r = rn[0]
             pre = []
             for b, t, fr in sp.iter_calls():
-                if fr and lib.tail(mir.fn_name(fr), 2) in ("World::get_entity_mut", "EntityWorldMut::get_mut", "Option::take") and not sp.dominates(r, b):
+                if fr and lib.tail(mir.fn_name(fr), 2) in ("World::get_entity_mut", "EntityWorldMut::get_mut", "EntityWorldMut::into_mut", "Option::take") and not sp.dominates(r, b):
                     for (sb, ok_t, fail_t) in lib.result_arms(sp, b):
                         pre.append((lib.tail(mir.fn_name(fr), 2), ok_t, fail_t))
             ctx.check(len(pre) == 3 and all(sp.dominates(ok_t, r) for _, ok_t, _ in pre), "C17.c", "spawned_syscall:three-guards-before-run", sp.loc(r),
@@ -166,13 +166,38 @@ def check(ctx):
             # exception: the `?` right after run (Try::branch on the run's own result)
             tb = [b for b, t, fr in sp.iter_calls() if lib.is_call(fr, "Try::branch")]
             late_ok = all(any(sp.dominates(x, b) for x in tb) for b in late)
+            # an Err rebuilt by `?` (from_residual) after the run is excused only when the `?` is on the run's own result: a `?`
+            # on a later lookup returns Err for a call whose system did run (and drops its callback)
+            def _from_run(op_, depth=0):
+                if depth > 6:
+                    return False
+                for o_ in origins(sp, op_):
+                    if o_[0] != "call":
+                        return False
+                    if o_[1] == r:
+                        continue
+                    t_ = sp.blocks[o_[1]]["term"]
+                    f_ = op_fn(t_["func"])
+                    if f_ is not None and (lib.is_call(f_, "Try::branch") or lib.tail(mir.fn_name(f_), 2) in ("Option::ok_or", "Option::ok_or_else")) and t_["args"] \
+                            and _from_run(t_["args"][0], depth + 1):
+                        continue
+                    return False
+                return True
+            for b_, t_, fr_ in sp.iter_calls():
+                if lib.is_call(fr_, "FromResidual::from_residual") and b_ in after and t_["args"] and not t_["dest"]["p"] \
+                        and sp.local_ty(t_["dest"]["l"]) == sp.local_ty(0) and sp.local_ty(0).startswith("core::result::Result<") \
+                        and (t_["dest"]["l"] == 0 or any(st_["k"] == "assign" and st_["place"]["l"] == 0 and not st_["place"]["p"] and "use" in st_["rv"]
+                                                        and (op_place(st_["rv"]["use"]) or {}).get("l") == t_["dest"]["l"] for _, _, st_ in sp.iter_stmts())):
+                    # (the function's own error; a `?` inside an inlined Option-returning helper is not one)
+                    if not _from_run(t_["args"][0]):
+                        late_ok = False
             if late and late_ok:
                 ctx.notes.append("exception applied: spawned_syscall `?` after run - " + EXCEPTIONS["spawned_syscall:?-after-run"])
             ctx.check(late_ok, "C17.c", "spawned_syscall:err-before-any-run", sp.loc(r), "Err returns precede the run (except the Empty-callback `?`)", "Err is returned after the system ran")
             # reinsertion
             post_fail = []
             for b, t, fr in sp.iter_calls():
-                if lib.is_call(fr, "World::get_entity_mut", "EntityWorldMut::get_mut", "Try::branch") and sp.dominates(r, b):
+                if lib.is_call(fr, "World::get_entity_mut", "EntityWorldMut::get_mut", "EntityWorldMut::into_mut", "Try::branch") and sp.dominates(r, b):
                     for (sb, ok_t, fail_t) in lib.result_arms(sp, b):
                         post_fail.append(fail_t)
             # the run's own `None` (the callback was Empty): `run(..).ok_or(())?` or `let Some(r) = run(..) else { return Err(()) }`
